@@ -308,7 +308,7 @@ class Model:
             if b is not None:
                 b.bit = False
         self.eltorito = None
-        self.hybrid = None if self.hybrid is None else self.hybrid
+        self.hybrid = None        # since 'rm_eltorito takes the isohybrid structures with it'
         self._gc()
 
     def op_add_isohybrid(self, op):
